@@ -35,6 +35,12 @@ def setup(ctx):
 
 
 def finish(ctx):
+    import dsw.spiderweb as sw
+    import dsw.graphized as gz
+    for fn in (sw.decode,):
+        seen, total = clock.coverage_of(fn)
+        ctx.setadd("executed-lines:" + fn.__name__, seen)
+        ctx.notes["statement-lines:" + fn.__name__] = len(total)
     for k, v in clock.S.probe_hits.items():
         ctx.mon("probe-hits:" + k, v)
 
